@@ -25,6 +25,7 @@ type TFact struct {
 	Guards []GAtom
 	Held   []string
 	Stack  []string
+	Frames []ssa.Instruction // call chain from the entry point (call instructions, outermost first)
 	Map    string // mapop: recv.<field>
 	Method string
 	Key    *Org
@@ -147,7 +148,7 @@ func NewTracker(c *Check) *Tracker {
 	t.W = w
 	w.SharedT[ModPath+"/"+pkgTracker+".user"] = true
 	w.Visit = func(v *VisitCtx) {
-		base := TFact{EP: v.EP, Fn: v.Fn, Ins: v.Ins, R: v.R, Guards: v.Guards, Held: v.Held, Stack: append([]string{}, v.Stack...)}
+		base := TFact{EP: v.EP, Fn: v.Fn, Ins: v.Ins, R: v.R, Guards: v.Guards, Held: v.Held, Stack: append([]string{}, v.Stack...), Frames: v.Frames}
 		switch x := v.Ins.(type) {
 		case ssa.CallInstruction:
 			cc := x.Common()
@@ -192,7 +193,7 @@ func NewTracker(c *Check) *Tracker {
 			if t.BindFns[sc] && len(args) >= 2 {
 				f := base
 				f.Kind = "bind"
-				f.U, f.Login = v.R.Of(args[0]), v.R.Of(args[1])
+				f.U, f.Login = v.R.Of(args[0]), t.normLookup(v.R, v.R.Of(args[1]))
 				t.Facts = append(t.Facts, f)
 				return
 			}
@@ -417,3 +418,114 @@ func sortFacts(fs []TFact) {
 
 
 var _ = token.ADD
+
+
+// LiftTo: the instruction of fn at which the fact happens: the fact's own
+// instruction when it was recorded in fn, else the call instruction in fn
+// on the fact's call chain. nil when fn is not on the chain.
+func (f TFact) LiftTo(fn *ssa.Function) ssa.Instruction {
+	if f.Fn == fn {
+		return f.Ins
+	}
+	for i := len(f.Frames) - 1; i >= 0; i-- {
+		if f.Frames[i].Parent() == fn {
+			return f.Frames[i]
+		}
+	}
+	return nil
+}
+
+// Within: the fact was recorded in fn or in a function reached from fn.
+func (f TFact) Within(fn *ssa.Function) bool { return f.LiftTo(fn) != nil }
+
+// happensBefore: on every path of the walk on which fact b happens, fact a
+// happened before it: in the deepest function their call chains share, a's
+// instruction dominates b's.
+func happensBefore(a, b TFact) bool {
+	k := 0
+	for k < len(a.Frames) && k < len(b.Frames) && a.Frames[k] == b.Frames[k] {
+		k++
+	}
+	ai, bi := a.Ins, b.Ins
+	if k < len(a.Frames) {
+		ai = a.Frames[k]
+	}
+	if k < len(b.Frames) {
+		bi = b.Frames[k]
+	}
+	if ai == nil || bi == nil || ai == bi || ai.Parent() != bi.Parent() {
+		return false
+	}
+	return dominatesInstr(ai, bi)
+}
+
+
+// Before: whenever fact b happens, fact a has happened earlier in the same
+// activation (dominance in the deepest function their call chains share,
+// and a is unavoidable inside the call that contains it).
+func (t *Tracker) Before(a, b TFact) bool {
+	if a.EP != b.EP || !happensBefore(a, b) {
+		return false
+	}
+	k := 0
+	for k < len(a.Frames) && k < len(b.Frames) && a.Frames[k] == b.Frames[k] {
+		k++
+	}
+	if k >= len(a.Frames) {
+		return true // a was recorded in the shared function itself
+	}
+	return t.unavoidableBelow(a, a.Frames[k].Parent())
+}
+
+// unavoidableBelow: in every function strictly below fn on the fact's call
+// chain (down to the fact's own function) the step towards the fact is on
+// every path from the function's entry to a return: when the call in fn
+// returns normally, the fact has happened.
+func (t *Tracker) unavoidableBelow(f TFact, fn *ssa.Function) bool {
+	start := -1
+	for i := len(f.Frames) - 1; i >= 0; i-- {
+		if f.Frames[i].Parent() == fn {
+			start = i
+			break
+		}
+	}
+	if start < 0 {
+		return f.Fn == fn
+	}
+	for j := start + 1; j <= len(f.Frames); j++ {
+		var step ssa.Instruction
+		if j == len(f.Frames) {
+			step = f.Ins
+		} else {
+			step = f.Frames[j]
+		}
+		g := step.Parent()
+		if searchAvoiding(g, nil, isReturn, func(in ssa.Instruction) bool { return in == step }) != nil {
+			return false
+		}
+	}
+	return true
+}
+
+
+// normLookup: result 0 of the locked map's Load(key) is the entry stored
+// under key, like the value a WithLockedValueDo callback receives: both are
+// rendered as lookup{map.m, key}.
+func (t *Tracker) normLookup(r *Resolver, o *Org) *Org {
+	if o == nil || o.K != "call" || o.Idx != 0 {
+		return o
+	}
+	cl, ok := o.V.(*ssa.Call)
+	if !ok {
+		return o
+	}
+	sc := staticCallee(cl.Common())
+	if sc == nil {
+		return o
+	}
+	if name, isM := t.W.mapMethod(sc); !isM || name != "Load" || len(cl.Call.Args) != 2 {
+		return o
+	}
+	inner := &Org{K: "field", Name: "m", Sub: []*Org{r.Of(cl.Call.Args[0])}}
+	return &Org{K: "lookup", V: cl, Sub: []*Org{inner, r.Of(cl.Call.Args[1])}}
+}
